@@ -145,6 +145,9 @@ func TestC12Shutdown(t *testing.T) {
 			quit chan struct{}
 		}
 		var closers []closer
+		// another goroutine (a request, or the read routine's resend) sits
+		// inside Write and holds the write lock
+		foreignWriter := h.WritersParkedAny()
 		n := rapid.IntRange(1, 4).Draw(rt, "closers")
 		if n >= 2 {
 			nontrivial = true
@@ -191,7 +194,10 @@ func TestC12Shutdown(t *testing.T) {
 		for _, cl := range closers {
 			// (a Disconnect whose quit is closed may still win the connection
 			// and sit in its own Write: quit need not win the race, L3)
-			if cl.kind != "close" {
+			// — unless somebody else holds the write lock already: then a
+			// Disconnect whose quit fired can only take the quit branch, which
+			// interrupts that writer just like Close does
+			if cl.kind == "disconnect-nil" || cl.kind == "disconnect-open" || cl.kind != "close" && !foreignWriter {
 				mayWait = true
 			}
 		}
